@@ -10,7 +10,7 @@ CHECK = {
             "crypto/tls terminator playing the CDN, against readFirstPacket + AuthFirstPacket + Responder (and a subset through the whole dispatchConnection), "
             "x 4 encryption methods x session ids {0, 1, 2^31, 2^32-1, random} x both unordered flags x client clock offsets {-179 s, -60 s, 0, +60 s, +179 s, +179.999999999 s} "
             "x server names incl. 'random' x methods of 1..12 bytes, random UIDs and method bytes; composeReply byte for byte on random inputs. "
-            "quick: 4 flavours x 4 x 5 x 2 cases with the other dimensions rotated + 80 random + 40 through dispatchConnection; thorough: the full product (960 per flavour) + 600 random. "
+            "quick: 4 flavours x 4 x 5 x 2 cases with the other dimensions rotated + 80 random + 40 through dispatchConnection; thorough: the full product (240 per flavour x 6 clock offsets) + 4000 random + 400 through dispatchConnection. "
             "non-trivial: every handshake (fresh ephemeral key, uTLS-randomised hello); distinct by index",
     "assumptions": ["Lawful cipher interface (open.seal = id, tag length 16, DH commutativity, 32-byte outputs): true of AES-GCM / X25519, not proved here",
                     "uTLS emits a ClientHello that is a serialisation of the structural datatype of c06_tls_carrier with the given random / session id / X25519 share "
